@@ -2489,6 +2489,7 @@ def inline_dropout_training_mode_constants_ir(graph: ir.Graph) -> None:
     if not nodes:
         return
     changed = False
+    false_value: Optional[ir.Value] = None
     del_not_names: Set[str] = set()
     del_not_nodes: Set[ir.Node] = set()
 
@@ -2526,7 +2527,27 @@ def inline_dropout_training_mode_constants_ir(graph: ir.Graph) -> None:
                     continue
                 nv = _read_scalar_bool_from_value_or_constant(nodes, not_in)
                 if nv is not None and bool(nv) is True:
-                    rep_val = _constant_false_value()
+                    if false_value is None:
+                        # Materialize the constant as a node so that the value is
+                        # defined in the serialized graph (top graphs and function
+                        # bodies alike); all Dropouts of the graph share it.
+                        false_value = _constant_false_value()
+                        false_node = ir.Node(
+                            op_type="Constant",
+                            domain="",
+                            inputs=[],
+                            outputs=[false_value],
+                            attributes=[
+                                ir.Attr(
+                                    "value",
+                                    IRAttrType.TENSOR,
+                                    false_value.const_value,
+                                )
+                            ],
+                            name="false_const_node",
+                        )
+                        graph.insert_before(n, false_node)
+                    rep_val = false_value
                     ins_new = list(ins)
                     ins_new[2] = rep_val
                     old_not_out = _node_output(producer)
